@@ -738,6 +738,7 @@ class Interp:
         self.notes = []
         self.stack_fns = []
         self.ext_calls = {}
+        self.ext_names = {}
         self.effects = set()
         self.budget = None
         self.partitions = {}        # fn name -> {variable names}: trace partitioning directives
@@ -2265,6 +2266,7 @@ class CallMixin:
         crate = c.get('rcrate') if c else None
         item = c.get('item') if c else None
         self.ext_calls[did] = self.ext_calls.get(did, 0) + 1
+        self.ext_names[did] = name
         diverges = t['t'] is None
         if c is not None and not quiet and not trusted:
             ok = True
@@ -2682,8 +2684,12 @@ class Engine(Interp, InterpOps, CallMixin, ZoneMixin):
                         walk(x)
             elif k == 'O':
                 for x in v[2]:
-                    if isinstance(x, tuple) and x and x[0] in ('I', 'F', 'A', 'E', 'S', 'O'):
+                    if isinstance(x, tuple) and x and x[0] in ('I', 'F', 'A', 'E', 'S', 'O', 'T'):
                         walk(x)
+            elif k == 'T':
+                if v[2] is not None:
+                    torig.add(v[2])
+        torig = set()
 
         def collect(t):
             if t in used:
@@ -2709,11 +2715,15 @@ class Engine(Interp, InterpOps, CallMixin, ZoneMixin):
             if op in ('o', 'len'):
                 # values reachable from an entry parameter are re-materialised with the same term
                 o = t[1]
-                while o.__class__ is tuple and len(o) == 2:
-                    if o[0] == 'p' and o[1].__class__ is str:
-                        return True
-                    o = o[0]
-                return False
+                while True:
+                    if o in torig:
+                        return True      # derived from a lazily expanded value that is still held
+                    if o.__class__ is tuple and len(o) == 2:
+                        if o[0] == 'p' and o[1].__class__ is str:
+                            return True
+                        o = o[0]
+                    else:
+                        return False
             if op in ('j', 'e', 'discr', 'p'):
                 return False
             ok = True
